@@ -625,8 +625,14 @@ def check(ctx):
                 (inner[0].replace(' ', '') in ('(nematching_move_count1)',) and inner[1]) or \
                 (re.fullmatch(r'\(ne count_if\(begin,end,.*\) 1\)', inner[0]) is not None and inner[1])
         if not known:
-            raise AnalysisBroken('parse_san gives up at %s under `%s` (%s): a rejection the inclusion argument does not cover'
-                                 % (ps.loc(n), inner[0], inner[1]))
+            refused = _refused_prints(p, ps, n, gf)
+            if refused is None:
+                raise AnalysisBroken('parse_san gives up at %s under `%s` (%s): a rejection the inclusion argument does not cover'
+                                     % (ps.loc(n), inner[0], inner[1]))
+            ctx.ob('C17.R1.extra-rejection', 'parse_san@%d' % n.get('l', 0), not refused,
+                   'a further way of giving up (`%s`) refuses none of the strings san() writes for a legal move, decided for the '
+                   'kinds of move the printer distinguishes (quiet, capture, e.p. capture, promotion, capturing promotion)%s'
+                   % (inner[0][:100], '' if not refused else ' — refused: ' + ', '.join(refused)), site=ps.loc(n))
     ctx.floor('C17.R1.rejections', n_rej, 3, 'NO_MOVE returns in parse_san')
     from rules.norm import cond_value as _cv, Unknown as _U2
     npi = _N(ps)
@@ -636,7 +642,7 @@ def check(ctx):
         if (n.get('callee') or {}).get('n', '').endswith('::at') and 'match[' in npi.s(n):
             m_ = re.search(r'match\[(\d)\]', npi.s(n))
             grp_ = int(m_.group(1)) if m_ else None
-            if grp_ in (2, 3, 5):
+            if grp_ in _regex_roles(p, optional=True):
                 n_opt += 1
                 facts_ = set()
                 for c_, t_ in guard_facts(ps, n):
@@ -785,7 +791,152 @@ def check(ctx):
                 idx = [const_of(strip_casts(kids(x)[2])) for x in walk(n) if x['k'] == 'CXXOperatorCallExpr' and x.get('op') == '[]'
                        and short(strip_casts(kids(x)[1]).get('ref', {}).get('n', '')) == 'match']
                 grp[nm] = sorted(set(idx))
-    ctx.ob('C17.R3.groups', 'parse_san', grp == {'moved_piece': [1], 'from_file': [2], 'from_rank': [3], 'to_square': [4], 'promotion_piece_kind': [5]},
+    roles = _regex_roles(p)
+    want_grp = {'moved_piece': [roles.get('piece')], 'from_file': [roles.get('file')], 'from_rank': [roles.get('rank')],
+                'to_square': [roles.get('target')], 'promotion_piece_kind': [roles.get('promotion')]}
+    ctx.ob('C17.R3.groups', 'parse_san', grp == want_grp and None not in roles.values() and len(roles) >= 5,
            'regex groups 1..5 feed piece, file, rank, target, promotion in that order (%s)' % grp, site=ps.loc())
     ctx.note('buffers used by the printer/parser are C10 (B10 list capacity, NO_SQUARE shift)')
     ctx.note('not decided: uniqueness of the printed SAN among the legal moves of each concrete position')
+
+
+def _refused_prints(p, ps, ret, gf):
+    """a rejection of parse_san outside the inclusion argument, evaluated on what san() prints for each kind of legal move: the
+    string tests by constant evaluation on a representative spelling (and its groups under the SAN regex), the board test
+    `piece_at(to_square) == NO_PIECE` from the kind of move (the target of a quiet move, a promotion or an e.p. capture is empty).
+    Returns the list of refused kinds, or None when some part of the condition is neither."""
+    import re as _re
+    from rules.streval import StrEval, Unknown as _SU
+    from rules.norm import Norm as _Nn
+    from rules.common import strip_casts
+    v = p.vars.get('engine::Position::SAN_REGEX') or {}
+    lit = None
+    init = v.get('init')
+    if isinstance(init, dict):
+        sl = [x for x in walk(init) if x['k'] == 'StringLiteral']
+        lit = sl[0].get('s') if len(sl) == 1 else None
+    if lit is None:
+        return None
+    try:
+        rx = _re.compile(lit)
+    except _re.error:
+        return None
+    CASES = (('a quiet move', 'Nf3', True), ('a capture', 'Nxe5', False), ('an e.p. capture', 'exd6', True),
+             ('a promotion', 'e8=Q', True), ('a capturing promotion', 'exd8=Q', False), ('a quiet pawn move', 'e4', True),
+             ('a disambiguated capture', 'Raxd1', False))
+    nn = _Nn(ps, keep=('to_square',))
+    se = StrEval(p)
+
+    def leaf(c0, case):
+        name, text, empty = case
+        s_ = nn.s(c0).replace(' ', '')
+        if 'piece_at(to_square)' in s_:
+            at = nn.atom(c0)
+            if isinstance(at, tuple) and at[0] == 'in' and at[1] == 'piece_at(to_square)' and len(at[2]) == 1:
+                return (0 in at[2]) == empty
+            if isinstance(at, tuple) and at[0] == 'truthy' and at[1] == 'piece_at(to_square)':
+                return (not empty) == at[2]
+            return None
+        mm = rx.fullmatch(text)
+        if mm is None:
+            return None
+        env = {'str': text, 'match': [mm.group(0)] + [g if g is not None else '' for g in mm.groups()]}
+        try:
+            return bool(se.truth(se.ev(ps, c0, env)))
+        except _SU:
+            return None
+
+    def ev(c, case):
+        c0 = strip_casts(c)
+        while c0 is not None and c0['k'] in ('ParenExpr', 'ExprWithCleanups') and kids(c0):
+            c0 = strip_casts(kids(c0)[-1])
+        if c0['k'] == 'BinaryOperator' and c0.get('op') in ('&&', '||'):
+            a, b = ev(kids(c0)[0], case), ev(kids(c0)[1], case)
+            if c0['op'] == '&&':
+                if a is False or b is False:
+                    return False
+                return None if a is None or b is None else True
+            if a is True or b is True:
+                return True
+            return None if a is None or b is None else False
+        if c0['k'] == 'UnaryOperator' and c0.get('op') == '!':
+            a = ev(kids(c0)[0], case)
+            return None if a is None else not a
+        r_ = c0.get('ref') or {}
+        if r_.get('k') == 'Local' and (c0.get('t') or '').replace('const ', '') == 'bool':
+            from rules.effects import single_def as _sd
+            d0 = _sd(ps, r_['id'])
+            if d0 is not None:
+                return ev(d0, case)
+        return leaf(c0, case)
+    par = ps.parent(ret)
+    while par is not None and par['k'] != 'IfStmt':
+        par = ps.parent(par)
+    if par is None:
+        return None
+    truth = any(x is ret for x in walk(kids(par)[1]))
+    refused = []
+    for case in CASES:
+        r = ev(kids(par)[0], case)
+        if r is None:
+            return None
+        if r == truth:
+            refused.append('%s (%s)' % (case[0], case[1]))
+    return refused
+
+
+def _regex_roles(p, optional=False):
+    """capture groups of SAN_REGEX by what they match: piece letter, origin file, origin rank, target square, promotion letter
+    (a group of another kind, e.g. one around the capture mark, has no role). optional=True: the numbers of the groups that can
+    match the empty string."""
+    import re as _re
+    v = p.vars.get('engine::Position::SAN_REGEX') or {}
+    init = v.get('init')
+    sl = [x for x in walk(init) if x['k'] == 'StringLiteral'] if isinstance(init, dict) else []
+    if len(sl) != 1:
+        raise AnalysisBroken('C17: the SAN regex is not a single string literal')
+    lit = sl[0].get('s') or ''
+    groups = []
+    depth, start = 0, None
+    i = 0
+    while i < len(lit):
+        ch = lit[i]
+        if ch == '\\':
+            i += 2
+            continue
+        if ch == '[':
+            j = lit.find(']', i + 1)
+            i = (j if j >= 0 else len(lit)) + 1
+            continue
+        if ch == '(':
+            if lit[i + 1:i + 2] == '?':
+                raise AnalysisBroken('C17: the SAN regex uses a non-capturing or special group, which the rule does not parse')
+            if depth == 0:
+                start = i
+            depth += 1
+        elif ch == ')':
+            depth -= 1
+            if depth == 0 and start is not None:
+                groups.append(lit[start + 1:i])
+        i += 1
+    if any('(' in g for g in groups):
+        raise AnalysisBroken('C17: nested groups in the SAN regex')
+    if optional:
+        return [k + 1 for k, g in enumerate(groups) if _re.fullmatch(g, '') is not None]
+    roles = {}
+    for k, g in enumerate(groups):
+        core = g[:-1] if g.endswith('?') else g
+        role = None
+        if core == '[a-h][1-8]':
+            role = 'target'
+        elif core == '[a-h]':
+            role = 'file'
+        elif core == '[1-8]':
+            role = 'rank'
+        elif core.startswith('[') and core.endswith(']') and set(core[1:-1]) <= set('NBRQKnbrqk'):
+            role = 'promotion' if ('piece' in roles) else 'piece'
+        if role is not None:
+            if role in roles:
+                raise AnalysisBroken('C17: two groups of the SAN regex match a %s' % role)
+            roles[role] = k + 1
+    return roles
